@@ -85,7 +85,7 @@ PROPS["C03"] = dict(
               ("rejected:over-wide-compact", 10), ("rejected:too-many-bits", 10), ("rejected:eof", 10), ("accepted", 1000), ("fuzz_executions", 100000)],
     stages=lambda tier: [native(), native(runtime="release", name="release", slow=2), asan(values=60 if tier == "quick" else 800, args=["--mode", "sampled-only"]),
                          dict(runtime="fuzz", name="fuzz", seconds=45 if tier == "quick" else 900)] + ([
-        miri(values=3, args=["--mode", "sampled-only"]),
+        miri(shards=64, values=3, args=["--mode", "sampled-only"]),
     ] if tier == "thorough" else []),
 )
 
